@@ -188,13 +188,14 @@ PROPS = {
     'C10': {
         'level': 'other',
         'explanation': (
-            "The four row-delivering methods of the cursor are executed symbolically on an opaque buffer: what is handed "
+            "The four row-delivering methods of the cursor are interpreted abstractly (term interpreter, no solver) on an opaque buffer: what is handed "
             "out, what is kept and how far the position counter moves are terms that must satisfy the protocol "
             "(fetchone: B[0] / B[1:] / +1; fetchmany: B[:n] / B[n:] / +len(B[:n]); fetchall: B / [] / +len(B); iteration "
             "delegates to a fetch), plus the not-executed and exhausted cases (R-FETCHSIB); execute() resets every piece "
             "of cursor state (R-RESET); rowcount reads only state written by __init__ and execute and is -1 on a fresh "
             "cursor (R-ROWCOUNT); description entries are 7-sequences of the DB-API fields (R-COLUMN7); module constants, "
-            "required methods (R-MODCONST) and the exception tree (R-EXCTREE). Does not decide Python's slice arithmetic."),
+            "required methods (R-MODCONST), every Connection.execute() returns a fresh cursor bound to the connection "
+            "(R-FRESHCURSOR) and the exception tree (R-EXCTREE). Does not decide Python's slice arithmetic."),
         'assumptions': TRUSTED_STRUCT,
         'quick': [sxc.rule_fetchsib, sxc.rule_reset, sxc.rule_rowcount, cu.rule_column7, cu.rule_modconst, sxc.rule_freshcursor, cr.rule_exctree],
         'thorough': [],
